@@ -36,6 +36,17 @@ func (propC04) Gen(r *Rng, run uint64, tier string) *Plan {
 	if r.Bool(0.3) {
 		spec.Msg = "rich"
 	}
+	switch x := r.Intn(100); {
+	case x < 6:
+		// many sources
+		spec.NMin, spec.NMax, spec.RecMax = 9, 24, 6
+	case x < 12:
+		// long logs, deep heap refills
+		spec.RecMax, spec.Hi = 150, BaseNs+120*sec
+	case x < 15:
+		// large frames on the merge path
+		spec.NoHuge, spec.Msg, spec.RecMax = false, "rich", 6
+	}
 	if r.Bool(0.25) {
 		spec.Unsorted = true
 		p.Config = "unsorted"
@@ -46,7 +57,7 @@ func (propC04) Gen(r *Rng, run uint64, tier string) *Plan {
 	p.World = GenWorld(r.Sub("world"), spec)
 	p.Query = "{}"
 	// Mostly the window covers everything; sometimes it cuts into the log.
-	p.Params = Params{Start: BaseNs - 3*sec, End: BaseNs + 25*sec, StepNs: sec, Limit: -1}
+	p.Params = Params{Start: BaseNs - 3*sec, End: BaseNs + 125*sec, StepNs: sec, Limit: -1}
 	if r.Bool(0.25) {
 		p.Params.Start = BaseNs + int64(r.Intn(8))*sec + int64(r.Intn(1000))*1_000_000
 		p.Params.End = BaseNs + int64(10+r.Intn(12))*sec + int64(r.Intn(1000))*1_000_000
